@@ -122,6 +122,74 @@ func runC07(c *Ctx) {
 	c.Min(6)
 	converterGasFigures(c, w)
 
+	// ------------------------------------------------------------ P7
+	c.Rule("C07.P7", "OWNERSHIP", "in the staking handlers an amount that is subtracted from / added to a record's *big.Int field in place is never that very field (reached through a variable that was assigned the field pointer instead of a copy): z.Sub(z, y) with y aliasing z zeroes both, and every later use of y — the withdraw record, the refund — books zero while the total was reduced by the full amount")
+	c.Min(10)
+	{
+		nMut := 0
+		for _, fn := range w.FuncsIn("staking") {
+			if strings.HasSuffix(w.fileOf(fn.Pos()), "_test.go") {
+				continue
+			}
+			n := 0
+			for _, ci := range callInstrs(fn) {
+				o := calleeObj(ci)
+				if o == nil || recvName(o) != "Int" || o.Pkg() == nil || o.Pkg().Path() != "math/big" {
+					continue
+				}
+				switch o.Name() {
+				case "Sub", "Add", "Mul", "Quo", "Div", "Mod", "Rem":
+				default:
+					continue
+				}
+				recv := stripConv(callRecv(ci))
+				rf, rbase := loadedField(recv)
+				if rf == nil {
+					continue // a local accumulator
+				}
+				nMut++
+				c.sites++
+				c.sawFunc(fname(fn))
+				args := callArgs(ci)
+				alias := ""
+				// the conventional first operand z.Op(z, y) may be the receiver; the second must not be
+				for ai, a := range args {
+					if ai == 0 {
+						continue
+					}
+					var reach func(v ssa.Value, seen map[ssa.Value]bool) bool
+					reach = func(v ssa.Value, seen map[ssa.Value]bool) bool {
+						v = stripConv(v)
+						if seen[v] {
+							return false
+						}
+						seen[v] = true
+						if f, b := loadedField(v); f == rf && b != nil && samePath(b, rbase) {
+							return true
+						}
+						if phi, ok := v.(*ssa.Phi); ok {
+							for _, e := range phi.Edges {
+								if reach(e, seen) {
+									return true
+								}
+							}
+						}
+						return false
+					}
+					if reach(a, map[ssa.Value]bool{}) {
+						alias = fmt.Sprintf("operand %d", ai+1)
+					}
+				}
+				key := fmt.Sprintf("%s#%s.%s@%d-operand-not-the-field", fname(fn), rf.Name(), o.Name(), n)
+				n++
+				c.Check(key, ci.Pos(), alias == "", ifelse(alias == "", "the amount is a value of its own", alias+" can be the very *big.Int the operation mutates (a variable was assigned the field pointer, not a copy): the field and the amount both end up zero, and what is booked afterwards from that amount is zero although the total was reduced by the full value"))
+			}
+		}
+		if nMut < 10 {
+			c.Undecided("staking#in-place-amount-updates", 0, fmt.Sprintf("only %d in-place updates of record amounts found", nMut))
+		}
+	}
+
 	// ------------------------------------------------------------ P2
 	c.Rule("C07.P2", "EXIT+EXHAUSTIVE", "teDeposit and teDelegationAdd (whose submission handlers debited the sender) on every return either applied the credit (UpdateValidator / UpdateDelegation) or refunded the transaction value to the sender, or run under a pre-V5 protocol version (historic behaviour); the submission and take-effect registries register the same actions")
 	c.Min(3)
